@@ -975,7 +975,7 @@ def oracle_object(label, dump, s0, out, case):
     fp = fingerprint_decompose(terms)
 
     def bad(what, got, exp):
-        keys = sorted(fp) if (fp and what in ('dc', 'ac', 'decompose')) else ['reassembly:' + what]
+        keys = sorted(fp) if (fp and what in ('dc', 'ac', 'decompose', 'transient')) else ['reassembly:' + what]
         for k in keys:
             out.append({'key': k, 'what': '%s: %s is %s, the stored parts give %s' % (label, what, got, exp), 'case': case})
     if dump.get('dc') is not None and P(dump['dc']) != bk['dc']:
@@ -1023,6 +1023,14 @@ def oracle_circuit(case, wr, res):
             out.append({'key': 'source-value:' + specs[sname]['kind'], 'case': case,
                         'what': 'source %s: stored value %s differs from the netlist value %s' % (sname, bk, exp)})
         oracle_object('source %s' % sname, dump, s0, out, case)
+        # every part of the source value must be analysed by some kind (grouping of sources by signal kind)
+        if not wr.get('is_ivp') and not wr.get('is_time_domain'):
+            need = ([('dc', 'dc')] if exp['dc'] != Z0 else []) + [('w:%d/%d' % (w_.numerator, w_.denominator), 'ac') for w_ in exp['ac']] + \
+                   ([('transient', 'transient')] if exp['tr'] != Z0 else [])
+            for kd_, tag in need:
+                if kd_ not in wr['kinds']:
+                    out.append({'key': 'groups:kind-not-analysed:' + tag, 'case': case,
+                                'what': 'source %s has a %s part but the circuit has no %s analysis (kinds %s)' % (sname, tag, kd_, list(wr['kinds']))})
         # per-kind selection: the value the sub-netlist of each kind uses
         for kind, kd in wr['kinds'].items():
             e = [x for x in kd['elements'] if x['name'] == sname]
@@ -1222,7 +1230,7 @@ def oracle_container(case, wr, res):
         fp = container_fingerprint(case, idxs, total)
 
         def bad(what, g_, e_):
-            for k in (sorted(fp) if fp and what in ('dc', 'ac') else ['reassembly:' + what]):
+            for k in (sorted(fp) if fp and what in ('dc', 'ac', 'transient') else ['reassembly:' + what]):
                 out.append({'key': k, 'case': case, 'what': '%s: %s is %s, the added terms give %s' % (label, what, g_, e_)})
         if dump.get('dc') is not None and P(dump['dc']) != exp['dc']:
             bad('dc', dump['dc'], exp['dc'])
